@@ -32,7 +32,7 @@ def p2p(mo=False, aml=None):
 
 
 INST_CONST = {'Own': ('<-', 'MC_Own'), 'OwnP': ('<-', 'MC_OwnP'), 'Q0': ('<-', 'MC_Q0'), 'TP0': ('<-', 'MC_TP0'),
-              'SO0': False, 'PTrace': False, 'Fwd': False, 'EmptyOnBmca': False}
+              'SO0': False, 'PTrace': False, 'Fwd': False, 'EmptyOnBmca': False, 'DevDup': True}
 
 # variants of the instance configuration shared by several properties: name -> (constants, world)
 INST_VARIANTS = {
@@ -156,7 +156,148 @@ def check_C08(tier, seed):
                                    'five port configurations'])
 
 
+
+# ------------------------------------------------------------------------------------------------ C05
+
+def tla_set(xs):
+    def f(x):
+        if isinstance(x, bool):
+            return 'TRUE' if x else 'FALSE'
+        if isinstance(x, str):
+            return '"%s"' % x
+        return str(x)
+    return '{' + ', '.join(f(x) for x in xs) + '}'
+
+
+def run_case_suite(prop, verdict, acc, name, module, constants, wjson, seed, owns, preds, invariants=(), profile='dev', timeout=1800, workers=8):
+    cfg, wpath = suite_files(name, module, constants, wjson, invariants=invariants, view='View', action_constraint='Emit')
+    stats, rep = run_edges(module + '.tla', cfg, wpath, name, seed, profile=profile, timeout=timeout, workers=workers)
+    acc.add(name, stats, rep)
+    if stats['violated']:
+        p = write_tlc_counterexample(prop, name, stats)
+        verdict.add({'kind': 'tlc', 'key': 'tlc:' + ','.join(stats['violated']), 'detail': 'TLC: %s violated in %s' % (stats['violated'], name),
+                     'replay': p, 'suite': name})
+    judge_edges(verdict, rep, owns, preds, name)
+    return stats, rep
+
+
+def check_C05(tier, seed):
+    t0 = time.time()
+    build('dev')
+    build('release')
+    v = Verdict('C05')
+    acc = Acc()
+    inv = ['OneSlave', 'ParentIsBest', 'OrderIndependent']
+    owns = ['pst', 'ppi', 'gm', 'steps', 'tp', 'path', 'clk', 'snap.rm']
+    base = dict(INST_CONST)
+    q = tier == 'quick'
+    def consts(pcfg, cls, steps, gset, snd, prior, multi=False, so=(False,), rounds=1, so0=False):
+        c = dict(base)
+        c.update({'PCfg': ('<-', pcfg), 'ClsSet': tla_set(cls), 'StepSet': tla_set(steps), 'GSet': tla_set(gset), 'SndSet': tla_set(snd),
+                  'PriorSet': tla_set(prior), 'Multi': multi, 'SoSet': tla_set(so), 'Rounds': rounds, 'SO0': so0})
+        return c
+    w2 = world([e2e(), e2e()])
+    suites = []
+    if q:
+        suites += [
+            ('two-ports', consts('PCfg_A', [6, 127, 128, 248, 255], [0, 1, 254], [0, 1, 3, 7, 8], [3, 7], ['L', 'M']), w2, 'dev'),
+            ('master-only', consts('PCfg_B', [6, 248], [0, 1], [1, 7, 8], [3, 7], ['L', 'M'], so=(False, True)), world([e2e(), e2e(mo=True)]), 'release'),
+            ('multi', consts('PCfg_A', [248], [0, 1], [1, 7, 8], [3, 7], ['L'], multi=True), w2, 'dev'),
+            ('second-round', consts('PCfg_A', [6, 248], [0, 1, 2], [0, 1, 7, 8], [3, 7], ['L', 'M'], rounds=2), w2, 'dev'),
+            ('three-ports', consts('PCfg_T', [248], [0, 1], [1, 8], [3, 7], ['L', 'M']), world([e2e(), e2e(), e2e()]), 'dev'),
+        ]
+    else:
+        suites += [
+            ('two-ports', consts('PCfg_A', [6, 127, 128, 248, 255], [0, 1, 2, 3, 254], [0, 1, 2, 3, 4, 5, 6, 7, 8, 9, 10], [3, 7], ['L', 'M']), w2, 'dev'),
+            ('two-ports-rel', consts('PCfg_A', [6, 248], [0, 1, 2, 254], [0, 1, 3, 4, 5, 6, 7, 8], [3, 7], ['L', 'M']), w2, 'release'),
+            ('master-only', consts('PCfg_B', [6, 127, 248], [0, 1, 2, 254], [0, 1, 3, 7, 8], [3, 7], ['L', 'M'], so=(False, True)), world([e2e(), e2e(mo=True)]), 'release'),
+            ('master-only-dev', consts('PCfg_B', [6, 248], [0, 1, 254], [0, 1, 7, 8], [3, 7], ['L', 'M']), world([e2e(), e2e(mo=True)]), 'dev'),
+            ('multi', consts('PCfg_A', [6, 248], [0, 1, 2], [0, 1, 3, 7, 8], [3, 7], ['L', 'M'], multi=True), w2, 'dev'),
+            ('second-round', consts('PCfg_A', [6, 248], [0, 1, 2, 254], [0, 1, 3, 7, 8], [3, 7], ['L', 'M'], rounds=2), w2, 'dev'),
+            ('three-ports', consts('PCfg_T', [6, 248], [0, 1, 2], [0, 1, 7, 8], [3, 7], ['L', 'M']), world([e2e(), e2e(), e2e()]), 'dev'),
+            ('slave-only-start', consts('PCfg_A', [248], [0, 1, 254], [0, 1, 7, 8], [3, 7], ['L'], so0=True), world([e2e(), e2e()], so=True), 'dev'),
+        ]
+    for name, c, w, prof in suites:
+        run_case_suite('C05', v, acc, 'C05-' + name, 'MCBmca', c, w, seed, owns, [], invariants=inv, profile=prof)
+    # laws of the comparison (TLC evaluates the ASSUMEs)
+    cfg = os.path.join(outdir('cfg'), 'C05-laws.cfg')
+    write_cfg(cfg, spec=None) if False else open(cfg, 'w').write('CHECK_DEADLOCK FALSE\n')
+    stats, text = run_tlc('MCBmcaLaws.tla', cfg, 'C05-laws', workers=4, timeout=600)
+    laws_ok = 'No error has been found' in text
+    if not laws_ok:
+        p = os.path.join(outdir('replay', 'C05-laws'), 'laws.txt')
+        open(p, 'w').write(text[-5000:])
+        v.add({'kind': 'tlc', 'key': 'tlc:laws', 'detail': 'a law of the data set comparison is false on the finite domain', 'replay': p})
+    return finish('C05', tier, seed, 'model_checking', v, acc, t0,
+                  'TLC enumerates every case of the configured lattice (own clockClass x prior port states x per-port qualified candidates '
+                  '(sender below/above the receiver, grandmaster record differing from the own data set in the first deciding attribute of '
+                  'Fig. 34, stepsRemoved) x order in which the host passes the ports); each case is one script replayed on a real PtpInstance; '
+                  'the oracle is module Bmca, transcribed from IEEE 1588-2019 Fig. 33-35; non-trivial/distinct as for edges',
+                  COMMON_ASSUME + ['module Bmca is a faithful transcription of IEEE 1588-2019 Figures 33-35 (with the deviations statime documents)',
+                                   'candidates are qualified by two consecutive Announces each'],
+                  extra_cov={'comparison_laws_checked': ['Antisymmetric', 'DifferentGmStrict', 'TiesAreErrors', 'BetterTransitive', 'NoCycle', 'D0Total'],
+                             'comparison_laws_hold': laws_ok})
+
+
+
+# ------------------------------------------------------------------------------------------------ C06
+
+def plain_tlc(prop, verdict, acc, name, module, constants, invariants=(), properties=(), timeout=900, workers=8, extra=(), constraint='Bound', view='View',
+              expect_violation=None):
+    cfg = os.path.join(outdir('cfg'), name + '.cfg')
+    write_cfg(cfg, constants=constants, invariants=invariants, properties=properties, view=view, constraint=constraint, action_constraint='Norm')
+    stats, text = run_tlc(module + '.tla', cfg, name, workers=workers, timeout=timeout, extra=extra)
+    if stats['errors'] and not stats['violated']:
+        raise ToolError('TLC error in %s: %s' % (name, stats['errors'][:2]))
+    acc.add(name, stats)
+    if stats['violated']:
+        stats['text_trace'] = vlib.extract_trace(text)
+        p = write_tlc_counterexample(prop, name, stats)
+        verdict.add({'kind': 'tlc', 'key': 'tlc:' + ','.join(stats['violated']), 'detail': 'TLC: %s violated in %s' % (stats['violated'], name),
+                     'replay': p, 'suite': name})
+    elif expect_violation:
+        verdict.notes.append('%s: expected design-level counterexample to %s was not found' % (name, expect_violation))
+    return stats
+
+
+def check_C06(tier, seed):
+    t0 = time.time()
+    build('dev')
+    v = Verdict('C06')
+    acc = Acc()
+    q = tier == 'quick'
+    inv = ['NeedTwo', 'NeverUnqualified', 'Expires', 'Sticks']
+    owns = ['pst', 'ppi', 'gm', 'steps', 'snap.fml', 'snap.rm']
+    base = dict(INST_CONST)
+    base.update({'PCfg': ('<-', 'PCfg_E'), 'StepsOf255': 255})
+    w1 = world([e2e()])
+    def c(masters, **kw):
+        d = dict(base)
+        d['Masters'] = tla_set(masters)
+        d.update(kw)
+        return d
+    run_inst_suite('C06', v, acc, 'C06-two-masters', 'MCFm', c([2, 9]), w1, 8 if q else 10, seed, owns, ['C06'], invariants=inv)
+    run_inst_suite('C06', v, acc, 'C06-one-master-deep', 'MCFm', c([2]), w1, 9 if q else 13, seed, owns, ['C06'], invariants=inv)
+    run_inst_suite('C06', v, acc, 'C06-steps-255', 'MCFm', c([2, 4]), w1, 7 if q else 9, seed, owns, ['C06'], invariants=inv)
+    run_inst_suite('C06', v, acc, 'C06-three-masters-sim', 'MCFm', c([2, 3, 9]), w1, 70, seed, owns, ['C06'], invariants=inv,
+                   simulate=(15 if q else 300, 60))
+    if not q:
+        run_inst_suite('C06', v, acc, 'C06-three-masters', 'MCFm', c([2, 3, 9]), w1, 8, seed, owns, ['C06'], invariants=inv)
+        run_inst_suite('C06', v, acc, 'C06-capacity-sim', 'MCFm', c([2, 3, 9, 11, 12, 13, 14, 15, 16]), w1, 90, seed, owns, ['C06'],
+                       invariants=['NeedTwo', 'NeverUnqualified'], simulate=(150, 80))
+    # the intended design (distinct messages only) satisfies the strict statement ...
+    plain_tlc('C06', v, acc, 'C06-intended-design', 'MCFm', c([2, 9], DevDup=False, Depth=8 if q else 10), invariants=inv + ['NeedTwoDistinct'])
+    # ... the code's behaviour (a repeated sequenceId is stored again) does not: recorded finding, any other counterexample is new
+    plain_tlc('C06', v, acc, 'C06-as-implemented-strict', 'MCFm', c([2], Depth=5), invariants=['NeedTwoDistinct'], expect_violation='NeedTwoDistinct')
+    return finish('C06', tier, seed, 'model_checking', v, acc, t0, EDGE_RULE,
+                  COMMON_ASSUME + ['the announce interval equals the BMCA interval (ages advance by one per BMCA run)',
+                                   'arrival patterns: per epoch and master any mix of next / duplicate / stale / skipped sequence ids, ids straddling 65535->0'],
+                  exhaustive=False if q else False)
+
+
 CHECKS = {
+    'C06': check_C06,
+    'C05': check_C05,
     'C08': check_C08,
 }
 
